@@ -207,6 +207,9 @@ def corpus():
     cs.append(("corpus-d23-shr-wordmultiple", ["bitset 64", "setall 0", "shr 0 64"]))
     cs.append(("corpus-d23-shl-between", ["bitset 12", "setall 0", "shl 0 64"]))
     cs.append(("corpus-existing-test-253", ["bitset 253", "set1 1 23", "set1 1 124", "set1 1 32", "set1 1 123", "set1 1 1", "set1 1 252", "shlc 0 1 12", "count 0"]))
+    # tests.cpp bitset::setters_and_getters: bitset<12>::set(13) / test(13) must keep working (no fix may change it)
+    cs.append(("corpus-existing-test-set13", ["bitset 12", "xset 0 13", "xtest 0 13", "xset 0 15", "xtest 0 15", "xtest 0 14", "xtest 0 12"]))
+    cs.append(("corpus-existing-test-set47", ["bitset 50", "val 0 35184372088832", "ctest 0 45", "set1 0 47", "ctest 0 47", "count 0"]))
     cs.append(("corpus-pcg-demo", ["pcg", "demo", "ctor 42 54", "gen 6", "bounded 6 20"]))
     cs.append(("corpus-mt-default", ["mt", "gen 1300", "state"]))
     cs.append(("corpus-sort-ties", ["sortcase", "sort 0 16 0 17 1 32", "sort 2 0 16 32 48", "sort 3 3 2 1", "sort 0"]))
